@@ -14,7 +14,7 @@ Ss == {0, 46, Thr32, Thr32 + 1}
 Ns == {0, 1, ThrN - 1, ThrN, ThrN + 1}
 Cs == {0, 1, Thr16 - 1, Thr16}
 Gs == {0, 1, Thr16 - 1, Thr16, Thr16 + 1}
-Tails == [p : Ps, b : Bs, s : Ss, n : Ns, c : Cs, g : Gs, z : BOOLEAN, sent : BOOLEAN]
+Tails == [p : Ps, b : Bs, s : Ss, n : Ns, c : Cs, g : Gs, z : BOOLEAN, sent : BOOLEAN, dsent : BOOLEAN]
 Init == T \in Tails
 Next == UNCHANGED T
 Spec == Init /\ [][Next]_T
